@@ -178,6 +178,14 @@ def run(ctx, R, tier):
     R.check(ok, "C18-R3", "denyConnection|always-closes", "the refused socket is closed on every path (also when the handshake raises)", dcf.loc(),
             "a refused connection can stay open")
 
+    from ..report import Rules
+    from . import c08
+    R8 = Rules("C08")
+    c08.run(ctx, R8, tier)
+    for o in R8.obs:
+        if o.key == "C08-R5|client|handshake-reply-decoded-by-reply-serializer":
+            R.add("C18-R3", "client|refusal-decodable", o.desc + " (the pool-full refusal is sent before the daemon adopts the client's serializer)", o.ok, o.loc, o.detail)
+
     # ---------------------------------------------------------------- R4
     from .c05 import worker_loop_rules
     worker_loop_rules(ctx, R, "C18-R4")
